@@ -85,10 +85,15 @@ Ltac fwd :=
   end.
 
 Ltac wfin :=
-  unfold will_R'; sf; wl_proj; cbn [connecting negb procs_of andb orb];
+  unfold will_R'; sf; wl_proj;
+  repeat match goal with Hx : ph ?s = _ |- context [ph ?s] => rewrite Hx end;
+  cbn [connecting negb procs_of andb orb];
   repeat split; intros;
   repeat match goal with Hx : _ \/ _ |- _ => destruct Hx | Hx : _ /\ _ |- _ => destruct Hx end;
-  fwd; subst; try discriminate; try congruence; auto.
+  fwd;
+  repeat match goal with Hx : _ \/ _ |- _ => destruct Hx | Hx : _ /\ _ |- _ => destruct Hx end;
+  subst; try discriminate; try congruence; auto;
+  try match goal with Hx : _ \/ _ -> _ /\ _ |- _ => solve [destruct Hx as [? ?]; auto] end.
 
 (* ----------------------------------------------------------- the processor *)
 
@@ -122,7 +127,7 @@ Proof.
   unfold_proc Hp.
   destruct e; try discriminate Hn; cbn [ev_g] in Hg; try discriminate Hg; injection Hg as ->.
   - (* ERx *)
-    destruct (pp s) eqn:Epp; try discriminate Hp.
+    destruct (pp s) eqn:Epp; try discriminate Hp; try (bm Hp; fail).
     + (* first packet *)
       specialize (Hi2 eq_refl). specialize (W9 eq_refl). subst gp0. cbn [procs_of] in W1. subst procs.
       rewrite Hi2 in *. cbn [connecting negb] in W2. subst auth.
@@ -132,24 +137,24 @@ Proof.
       destruct p; inv_some Hp; (eexists; split; [reflexivity|]); rewrite ?Hi2; wfin.
     + (* main loop *)
       assert (Hph : ph s <> Connecting).
-      { intros Hx. destruct (Hi1 Hx) as (Hy & _). rewrite Epp in Hy. discriminate Hy. }
+      { intros Hx. destruct (Hi1 Hx) as (Hy & _). discriminate Hy. }
       assert (Ha : auth = true) by (rewrite W2; destruct (ph s); [contradiction|reflexivity|reflexivity]).
       subst auth.
       assert (Hw : match procs with [] => setup = false | _ => True end).
       { destruct procs; [|exact I]. destruct setup; [|reflexivity]. destruct (W4 eq_refl) as [Hx _].
         destruct gp0; [discriminate W1|contradiction]. }
-      destruct p; bm Hp; inv_some Hp; cbn [wl_step]; rewrite Hprocs;
+      destruct p; bm Hp; inv_some Hp; cbn [wl_step]; wl_proj; rewrite Hprocs;
         try (eexists; split; [reflexivity|]); try solve [wfin].
       * (* a second CONNECT *)
         destruct procs; (eexists; split; [reflexivity|]); wfin.
       * (* DISCONNECT *)
-        wfin. destruct setup; [discriminate|reflexivity].
+        wfin. rewrite Ha. reflexivity.
   - (* ERxErr *)
-    destruct (pp s) eqn:Epp; try discriminate Hp; inv_some Hp; cbn [wl_step]; rewrite Hprocs;
+    destruct (pp s) eqn:Epp; try discriminate Hp; try (bm Hp; fail); inv_some Hp; cbn [wl_step]; wl_proj; rewrite Hprocs;
       (eexists; split; [reflexivity|]); wfin.
   - (* EAuth AOk *)
     destruct Hgp0 as [->|[_ Hx]]; [|discriminate Hx].
-    destruct (pp s) eqn:Epp; try discriminate Hp. destruct r; try discriminate Hn. inv_some Hp.
+    destruct (pp s) eqn:Epp; try discriminate Hp; try (bm Hp; fail). destruct r; try discriminate Hn. inv_some Hp.
     specialize (Hi2 eq_refl). rewrite Hi2 in *. cbn [connecting negb] in W2. subst auth.
     assert (Hs : setup = false).
     { destruct setup; [|reflexivity]. destruct (W4 eq_refl) as [_ Hx]. contradiction. }
@@ -157,15 +162,168 @@ Proof.
     (eexists; split; [reflexivity|]); wfin.
   - (* ESetup SOk *)
     destruct Hgp0 as [->|[_ Hx]]; [|discriminate Hx].
-    destruct (pp s) eqn:Epp; try discriminate Hp. destruct r; try discriminate Hn. bm Hp; inv_some Hp.
-    pose proof (Hi3 _ eq_refl) as Hph. rewrite Hph in *.
-    destruct (W10 c (or_intror eq_refl)) as [Hx1 Hx2].
-    (eexists; split; [reflexivity|]); wfin.
+    destruct (pp s) eqn:Epp; try discriminate Hp; try (bm Hp; fail).
+    destruct r as [|resumed fresh w0 p0 b0]; try discriminate Hn.
+    pose proof (Hi3 _ eq_refl) as Hph. destruct (W10 c (or_intror eq_refl)) as [Hx1 Hx2].
+    bm Hp; inv_some Hp; rewrite Hph in *; (eexists; split; [reflexivity|]); wfin.
   - (* EPub None by the processor: a QoS 0 publish *)
     destruct Hgp0 as [->|[_ Hx]]; [|discriminate Hx].
     destruct k; [discriminate Hn|]. cbn [wl_step]. wl_proj. rewrite W1. cbn [procs_of]. rewrite nmem_self.
     destruct (pp s) eqn:Epp; try discriminate Hp; bm Hp; inv_some Hp.
     (eexists; split; [reflexivity|]); wfin.
   - (* ETerm: never by the processor *)
-    destruct (pp s); discriminate Hp.
+    destruct (pp s); try discriminate Hp; bm Hp.
+Qed.
+
+(* ------------------------------------------------------------- the cleanup *)
+
+Lemma will_cleanup s t e s' :
+  will_R s t ->
+  (e = EClosed \/ exists g, ev_g e = Some g /\ is_role (gproc s) g = false) ->
+  step_cleanup s e = Some s' ->
+  exists t', wl_step t e = Some t' /\ will_R s' t'.
+Proof.
+  intros HR He Hl. unfold will_R in *.
+  destruct HR as (W1 & W2 & W3 & W4 & W5 & W6 & W8 & W9 & W10 & W11).
+  destruct t as [procs wwill auth setup disc pubs terms]. unfold wl_due in *. wl_proj.
+  unfold step_cleanup, guard in Hl.
+  destruct (lp s) eqn:Elp; destruct e; try discriminate Hl.
+  - (* LNone, EPub None: the will *)
+    destruct He as [He|(g0 & Hg & Hr)]; [discriminate He|]. cbn [ev_g] in Hg. injection Hg as ->.
+    destruct k; [discriminate Hl|].
+    destruct (all_stopped s && phase_connected (ph s)) eqn:Eg; [|discriminate Hl].
+    apply andb_true_iff in Eg as [Eg1 Eg2].
+    destruct (will s) as [w|] eqn:Ew; [|discriminate Hl].
+    destruct (message_eqb w m) eqn:Em; [|discriminate Hl]. inv_some Hl.
+    cbn [wl_step]; wl_proj. rewrite W1, (nmem_procs_false _ _ Hr).
+    destruct (ph s) eqn:Eph; try discriminate Eg2.
+    assert (Hs : setup = true).
+    { destruct setup; [reflexivity|]. discriminate (W3 eq_refl). }
+    subst setup. rewrite <- (W5 eq_refl eq_refl).
+    assert (Hd : disc = false).
+    { destruct disc; [|reflexivity]. discriminate (W6 eq_refl). }
+    subst disc. destruct W11 as [-> ->]. rewrite Em.
+    cbn [andb negb N.eqb]. eexists; split; [reflexivity|].
+    unfold will_R', wl_due; sf; wl_proj. rewrite Eph. cbn [connecting negb andb].
+    wfin.
+  - (* LNone, ETerm *)
+    destruct (all_stopped s && phase_geq_connected (ph s)
+              && negb (phase_connected (ph s) && match will s with Some _ => true | None => false end)) eqn:Eg;
+      [|discriminate Hl].
+    apply andb_true_iff in Eg as [Eg Eg3]. apply andb_true_iff in Eg as [Eg1 Eg2].
+    apply negb_true_iff in Eg3. inv_some Hl.
+    cbn [wl_step]; wl_proj. destruct W11 as [-> ->].
+    assert (Ha : auth = true) by (rewrite W2; destruct (ph s); [discriminate|reflexivity|reflexivity]).
+    rewrite Ha. cbn [andb N.eqb]. eexists; split; [reflexivity|].
+    assert (Hdue : setup && negb disc && match wwill with Some _ => true | None => false end = false).
+    { destruct setup; [|reflexivity]. destruct disc; [reflexivity|]. destruct wwill as [w|]; [|reflexivity].
+      exfalso. destruct (W4 eq_refl) as [_ Hc].
+      destruct (ph s) eqn:Eph; [apply Hc; reflexivity| |discriminate (W8 eq_refl eq_refl)].
+      rewrite (W5 eq_refl eq_refl) in Eg3. discriminate Eg3. }
+    unfold will_R', wl_due; sf; wl_proj. rewrite Hdue.
+    destruct ok; wfin.
+  - (* LNone, EClosed: the client never passed authentication *)
+    destruct (all_stopped s && negb (phase_geq_connected (ph s))) eqn:Eg; [|discriminate Hl].
+    apply andb_true_iff in Eg as [Eg1 Eg2]. apply negb_true_iff in Eg2. inv_some Hl.
+    cbn [wl_step]; wl_proj. destruct W11 as [-> ->].
+    destruct (ph s) eqn:Eph; try discriminate Eg2.
+    cbn [connecting negb] in W2. subst auth.
+    assert (Hs : setup = false).
+    { destruct setup; [|reflexivity]. destruct (W4 eq_refl) as [_ Hc]. exfalso; apply Hc; reflexivity. }
+    subst setup. cbn [andb negb N.eqb Bool.eqb]. eexists; split; [reflexivity|].
+    unfold will_R', wl_due; sf; wl_proj. rewrite Eph. cbn [connecting negb].
+    wfin.
+  - (* LWillR, EPubRet *)
+    inv_some Hl.
+    exists (WlSt procs wwill auth setup disc pubs terms). split; [reflexivity|].
+    unfold will_R', wl_due; sf; wl_proj. destruct ok; wfin.
+  - (* LWillDie, EDie *)
+    destruct k; try discriminate Hl. inv_some Hl.
+    exists (WlSt procs wwill auth setup disc pubs terms). split; [reflexivity|].
+    unfold will_R', wl_due; sf; wl_proj. wfin.
+  - (* LTerm, ETerm *)
+    inv_some Hl.
+    cbn [wl_step]; wl_proj. destruct W11 as (-> & -> & Hdue & ->).
+    cbn [andb N.eqb]. eexists; split; [reflexivity|].
+    unfold will_R', wl_due; sf; wl_proj. rewrite Hdue.
+    destruct ok; wfin.
+  - (* LTermDie, EDie *)
+    destruct k; try discriminate Hl. inv_some Hl.
+    exists (WlSt procs wwill auth setup disc pubs terms). split; [reflexivity|].
+    unfold will_R', wl_due; sf; wl_proj. wfin.
+  - (* LClosed, EClosed *)
+    inv_some Hl.
+    cbn [wl_step]; wl_proj. destruct W11 as (-> & -> & Hdue).
+    rewrite Hdue. cbn [andb N.eqb Bool.eqb]. eexists; split; [reflexivity|].
+    unfold will_R', wl_due; sf; wl_proj. wfin.
+Qed.
+
+(* --------------------------------------------------------------- all steps *)
+
+(* will_R only looks at gproc, ph, will, pp, lp *)
+Lemma will_R_ext s s' t :
+  gproc s' = gproc s -> ph s' = ph s -> will s' = will s -> pp s' = pp s -> lp s' = lp s ->
+  will_R s t -> will_R s' t.
+Proof. intros H1 H2 H3 H4 H5. unfold will_R. rewrite H1, H2, H3, H4, H5. auto. Qed.
+
+Lemma will_step_lemma s t e s' :
+  will_I s -> will_R s t -> step s e = Some s' -> exists t', wl_step t e = Some t' /\ will_R s' t'.
+Proof.
+  intros [Hi Hf] HR H.
+  destruct (step_cases _ _ _ H) as
+      [-> Hl -> | -> Ho -> | -> Hq -> | Hc | -> Hc | g s1 Ho Hg Hc Hin Hv Hp | g s1 Ho Hg Hc Hin R1 Hv Hp
+      | g s1 Ho Hg Hc Hin R1 R2 Hv Hp | g s1 Ho Hg Hc Hin R1 R2 R3 Hv Hp | g -> Ho Hc Hin Hfr ->].
+  - (* ENewConn *)
+    exists wl_new. split; [reflexivity|]. unfold will_R, will_R', wl_new; sf; wl_proj.
+    cbn [connecting negb procs_of]. repeat split; intros; try discriminate; auto.
+    destruct H0; discriminate. destruct H0; discriminate.
+  - exists t. split; [reflexivity|exact HR].
+  - exists t. split; [reflexivity|exact HR].
+  - (* closure *)
+    exists t. split; [apply wl_neutral_step, clo_event_wl_neutral, (step_clo_event _ _ _ Hc)|].
+    destruct (step_clo_shape _ _ _ Hc) as (se & cl & dy & q & ->). exact HR.
+  - (* EClosed *)
+    eapply will_cleanup; [exact HR|left; reflexivity|exact Hc].
+  - (* processor *)
+    assert (Hl : lp s = LNone).
+    { destruct (lp s) eqn:El; try reflexivity;
+        (assert (Hn : lp s <> LNone) by (rewrite El; discriminate)); destruct (Hf Hn) as (Hx & _);
+        (assert (Hx1 : pp s1 = PDone) by (destruct Hv as [[-> _]|(_ & _ & -> & _)]; exact Hx));
+        unfold step_proc in Hp; rewrite Hx1 in Hp; discriminate Hp. }
+    eapply (will_proc s1 t e s' g (gproc s)); try eassumption.
+    + destruct Hv as [[-> _]|(_ & _ & -> & _)]; exact Hi.
+    + destruct Hv as [[-> _]|(_ & _ & -> & _)]; exact Hl.
+    + destruct Hv as [[-> _]|(_ & _ & -> & _)]; exact HR.
+    + destruct Hv as [[-> Hx]|(_ & _ & -> & _)]; [exact Hx|reflexivity].
+    + destruct Hv as [[-> Hx]|(Hx & _ & -> & Hrx)]; [left; exact Hx|right; split; assumption].
+  - (* dequeuer *)
+    assert (Hn : wl_neutral e = true).
+    { unfold step_deq in Hp. destruct (dp s1); destruct e; try discriminate Hp; reflexivity. }
+    exists t. split; [apply wl_neutral_step, Hn|].
+    destruct (step_deq_shape _ _ _ Hp) as (se & d & dy & t1 & t2 & t3 & ->).
+    assert (Hgp : gproc s1 = gproc s) by (destruct Hv as [[-> _]|(_ & _ & ->)]; reflexivity).
+    eapply will_R_ext; [| | | | |exact HR]; sf; try exact Hgp;
+      destruct Hv as [[-> _]|(_ & _ & ->)]; reflexivity.
+  - (* acker *)
+    assert (Hn : wl_neutral e = true).
+    { unfold step_ack in Hp. destruct (ap s1); destruct e; try discriminate Hp; reflexivity. }
+    exists t. split; [apply wl_neutral_step, Hn|].
+    destruct (step_ack_shape _ _ _ Hp) as (a & dy & t1 & t2 & t3 & q & ->).
+    assert (Hgp : gproc s1 = gproc s) by (destruct Hv as [[-> _]|(_ & _ & ->)]; reflexivity).
+    eapply will_R_ext; [| | | | |exact HR]; sf; try exact Hgp;
+      destruct Hv as [[-> _]|(_ & _ & ->)]; reflexivity.
+  - (* cleanup *)
+    eapply will_cleanup; [|right; exists g; split; [exact Hg|]|exact Hp].
+    + destruct Hv as [[-> _]|(_ & _ & ->)]; exact HR.
+    + destruct Hv as [[-> _]|(_ & _ & ->)]; exact R1.
+  - (* Close() from outside *)
+    exists t. split; [reflexivity|exact HR].
+Qed.
+
+Theorem c12_will_holds : forall es s, bc_run es = Some s -> c12_will es = true.
+Proof.
+  unfold c12_will.
+  apply (scan_sound_inv wl_step will_I will_R will_I_init will_I_step will_step_lemma).
+  unfold will_R, will_R', wl_new; cbn. repeat split; intros; try discriminate; auto.
+  destruct H; discriminate. destruct H; discriminate.
 Qed.
